@@ -117,10 +117,11 @@ def limitsOk (h : Hist) : Bool :=
     match h.kind with
     | .generic n => decide (b.ids.length ≤ n)
     | .kafka n mb => decide (b.ids.length ≤ n) && ms.all fun m => decide (m.ksize ≤ mb)
-    | .kinesis r bb mr meth =>
-      decide (b.ids.length ≤ r) &&
-      decide ((ms.map fun m => m.size + kinesisKeyLen meth m).foldl (· + ·) 0 ≤ bb) &&
-      ms.all fun m => decide (m.size ≤ mr)
+    | .kinesis _ _ _ meth =>
+      -- the sink's hard limits as the property (and AWS) state them, whatever the code's constants say
+      decide (b.ids.length ≤ 500) &&
+      decide ((ms.map fun m => m.size + kinesisKeyLen meth m).foldl (· + ·) 0 ≤ 5 * 1024 * 1024) &&
+      ms.all fun m => decide (m.size ≤ 1024 * 1024)
 
 /-- C15: every per-record-limit drop has its statistic -/
 def dropStatsOk (h : Hist) : Bool :=
